@@ -148,6 +148,18 @@ def make_cases(ctx):
             add("daymonth", pref, base, "%d %s" % (d, MON[m - 1]), m=m, d=d)
         cases[-1]["settings"]["RELATIVE_BASE"] = {"dt": list(base), "tz": off}
         cases[-1]["awarebase"] = True
+    # a clock time alone, reference timezone-aware and written in the zone that TIMEZONE names (zones with daylight saving
+    # included, away from their transition days): nearest occurrence on the demanded side
+    for _ in range(300 if ctx.quick() else 5000):
+        zname = rng.choice(["Europe/Paris", "America/New_York", "Asia/Kolkata", "Australia/Sydney", "UTC", "Asia/Tokyo", "America/Sao_Paulo", "Europe/London"])
+        by = rng.choice([2001, 2015, 2021, 2024, 2036])
+        bm, bd = rng.choice([1, 2, 5, 6, 7, 8, 12]), rng.randint(4, 25)
+        base = (by, bm, bd) + rng.choice([(0, 0, 0, 0), (6, 0, 0, 0), (12, 0, 0, 0), (23, 59, 59, 0), (rng.randint(0, 23), rng.randint(0, 59), 0, 0)])
+        h, mi = rng.choice([(0, 0), (23, 59), (12, 0), (base[3], base[4]), (rng.randint(0, 23), rng.randint(0, 59)), (rng.randint(0, 23), rng.randint(0, 59))])
+        pref = rng.choice(PREFS)
+        s_ = rng.choice(["%02d:%02d" % (h, mi), "%d:%02d %s" % (h % 12 or 12, mi, "am" if h < 12 else "pm")])
+        add("timeaw", pref, base, s_, t=(h, mi, 0, 0), zone=(zname, 0))
+        cases[-1]["settings"]["RELATIVE_BASE"] = {"dt": list(base), "tz": zname}
     # a clock time that carries its own zone, under every TIMEZONE: the string's zone decides on which side of the
     # reference the candidate lies (zero-offset zones included), TIMEZONE only re-expresses the result
     SZ = [(" UTC", 0), (" GMT", 0), ("Z", 0), (" +00:00", 0), (" EST", -18000), (" +02:00", 7200), (" -03:30", -12600),
